@@ -9,11 +9,13 @@ Model `Ach.Model.Flatten`: the merge loop of `Flatten` over (header signature, e
 * `flatten_conserves` — the result's entries are a permutation of the input's, whatever the processing order;
 * `flatten_groups_conflict` — in the result no two batches have equal header signatures unless they share a trace number;
 * `flatten_idempotent` — flattening the result again (in any order) performs no merge: every batch comes out unchanged;
+* `flatten_entries_ascending` — every batch of the result holds its entries in ascending trace order (`AddToFile`'s sort),
+  strictly ascending when the group's trace numbers are distinct, and the sorted result still holds exactly the
+  input's entries; sorting an already sorted group changes nothing;
 * `flatten_functions_unchanged` (F) — the functions the model mirrors have the bodies it was written against.
 
 Not modelled: that the signature is the first 87 *bytes* of the rendered header (a multi-byte character shifts the cut —
-found by the oracle, known finding), `Copy()`'s sharing of the header pointer, sorting entries by trace and `Create` of
-the merged batches (C05), the sanity checks on the file control (which compare `Control`, not `ADVControl`).
+found by the oracle, known finding), `Create` of the merged batches (C05), the sanity checks on the file control (which compare `Control`, not `ADVControl`).
 -/
 namespace Ach.Props.C12
 open Ach.Flatten
@@ -27,6 +29,20 @@ theorem flatten_groups_conflict (bs : List FBatch) :
 
 theorem flatten_idempotent (bs p : List FBatch) (hp : p.Perm (flatten bs)) : flatten p = p :=
   Ach.Flatten.flatten_idempotent bs p hp
+
+theorem flatten_entries_ascending (bs : List FBatch) :
+    (∀ g ∈ flattenSorted bs, g.entries.Pairwise (fun a b => a.trace ≤ b.trace)) ∧
+    (∀ g ∈ flatten bs, (g.entries.map (·.trace)).Nodup → (sortByTrace g.entries).Pairwise (fun a b => a.trace < b.trace)) ∧
+    (allEntries (flattenSorted bs)).Perm (allEntries bs) ∧
+    (∀ g ∈ flattenSorted bs, sortByTrace g.entries = g.entries) := by
+  refine ⟨?_, fun g _ h => sortByTrace_strict g.entries h, ?_, ?_⟩
+  · intro g hg
+    obtain ⟨g0, _, rfl⟩ := List.mem_map.1 hg
+    exact sortByTrace_sorted g0.entries
+  · exact (allEntries_flattenSorted bs).trans (Ach.Flatten.flatten_conserves bs bs (List.Perm.refl _))
+  · intro g hg
+    obtain ⟨g0, _, rfl⟩ := List.mem_map.1 hg
+    exact sortByTrace_of_sorted _ (sortByTrace_sorted g0.entries)
 
 theorem flatten_functions_unchanged : Ach.Gen.hashes_flatten = [("Flatten", 17433447634489127110), ("File.FlattenBatches", 1536511262116566390), ("canMerge", 10022370995848969961), ("mergeableBatcher.GetHeaderSignature", 8692522239459761802), ("mergeableBatcher.GetTraceNumbers", 5489775042599663990), ("mergeableBatcher.Consume", 16867738305919833767), ("mergeableBatcher.Copy", 17960276134899704992), ("mergeableBatcher.AddToFile", 9783587712370690963), ("mergeableIATBatch.GetHeaderSignature", 765302516057565604), ("mergeableIATBatch.Consume", 9696842403323344610), ("mergeableIATBatch.Copy", 1045880233085641850), ("mergeableIATBatch.AddToFile", 4703499552243858790)] := by decide +kernel
 
